@@ -29,11 +29,11 @@ CLAIMS = {
  'C07': dict(
   technique='Lean 4 proof (occurrences cover every addressed ordinal; registered entries are collected and re-emitted) + differential correspondence + addressed-slot oracle',
   text='Proof: theorems about the loop-faithful Lean model of occurrences / examineSnaps (GoSnaps.Props.C07, C10) show that every ordinal 1..n of a test executed count times is registered and that a registered entry is never reported and is re-emitted with its body by any rewrite; the real Clean is run after generated processes (-count 1..3, all modes, sort on/off, stale entries at any position, decoys) and every slot addressed in the process is checked to replay the same value, and every result is compared with the model.',
-  note='Names Clean does not recognise (not starting with [Test) are known finding D11.'),
+  note='Headers of tests whose names do not start with Test (fuzz targets, benchmarks) used to be dropped by Clean rewrites: defect D11, repaired in /repo (fix: 2cc6cd2), regression witness replayed on every run.'),
  'C09': dict(
   technique='Lean 4 proof (no removal without update; removed = obsolete) + differential correspondence + directory-difference oracle',
   text='Proof: GoSnaps.Props.C09 shows on the model that without the update flag Clean leaves the file system unchanged (and after the repair of D5 that a sort-only rewrite keeps stale entries), that examineFiles removes only reported `.snap` names directly inside visited directories and removes nothing unless deleting is allowed; the real code is run on generated directories with stale entries, stale files, decoy files, sub-directories and unvisited directories in every mode, the set difference of the directory is compared with the stale set computed independently, and every result with the model.',
-  note='Completeness excludes unrecognised headers (D11); -run filtering is C08.'),
+  note='-run filtering is C08. D5 and D11 were violations of this property, repaired in /repo.'),
  'C10': dict(
   technique='Lean 4 proof (scan of a rendered file returns its entries; rewrite = render of a permutation; sort is a sorted permutation, idempotent) + differential correspondence',
   text='Proof: GoSnaps.Props.C10 proves that scanning `render es` yields exactly the entries, that the rewrite loop re-emits the original frames (so survivors replay the same value), that sortNat is a permutation and, when the natural order is total on the ids, the unique sorted one (independent of the initial order, idempotent), and that a file needing neither pruning nor sorting is not written. The real Clean is compared with the model on generated files (exact bytes), an independent parser checks survivors, order and that a second Clean writes nothing; natural.Less is compared exactly through sorted outputs.',
@@ -45,7 +45,7 @@ CLAIMS = {
  'C19': dict(
   technique='Lean 4 proof (file = value after a write, silent replay for every byte string) + differential correspondence + byte-equality oracle',
   text='Proof: GoSnaps.Props.C19 proves on the model that whenever a standalone call writes, the file holds exactly the snapshot text, that other files are untouched, and that a file holding the value replays with no event and no write for every byte sequence (no CR or shadow hypothesis); the real code is run with arbitrary bytes (CR, terminator-like, header-like, 300 KB lines), 1-12 calls per test, repeated executions and update mode, file bytes are compared with the value and with the model.',
-  note='`%` in the test name or path is known finding D12 (the path is used as a format string).'),
+  note='`%` in the test name or path used to be interpreted by Sprintf (defect D12, repaired in /repo: d338765); such names are ordinary generated inputs now.'),
  'C20': dict(
   technique='Lean 4 proof (exhaustive case analysis: exactly one outcome and one counter per call) + concurrency counters theorem + differential correspondence + summary parser',
   text='Proof: GoSnaps.Props.C20 proves by case analysis over the step functions shared by all five entry points that every covered call yields exactly one of passed/added/updated/failed, signalled as nothing, one added log, one updated log or one error, and moves exactly the matching counter by one; Props.C06 (counters_sum) lifts the counter identity to every schedule of parallel tests. On the implementation the outcomes are tallied from the mock test log and compared with the counters and with the numbers parsed from the printed summary, for every Clean mode.',
@@ -61,7 +61,7 @@ CLAIMS = {
  'C11': dict(
   technique='Lean 4 proof (location = formula of the property over exact filepath Clean/Join/Dir/Base/Ext) + exhaustive white-box comparison + generated Go programs run with the real go test',
   text='Proof: GoSnaps.Props.C11 states the location as a function of (Config, calling test file, test name, API) only and proves the filename and directory formulas on the Lean model of path/filepath; the model and the formula are compared with the real snapshotPath on all Dir x Filename x Ext x API x name combinations; generated modules (direct calls, helpers in non-test files, closures, goroutines, subtests, nested helpers, sub-packages up to three levels, Config options, -trimpath on/off, test binary executed from another working directory) are run with the real go test and the files found are compared with the formula.',
-  note='Partial: the runtime stack walk (baseCaller), inlining and -trimpath detection are exercised, not proved; with -trimpath the location is relative to the working directory (documented limitation). `%` in names: D12.'),
+  note='Partial: the runtime stack walk (baseCaller), inlining and -trimpath detection are exercised, not proved; with -trimpath the location is relative to the working directory (documented limitation). `%` in names: repaired (D12).'),
  'C12': dict(
   technique='Lean 4 proof obligation on extracted fact (no write through *Config anywhere in the source) + model invariance of the Config store + exhaustive sequences shared-vs-fresh Config + race detector',
   text='Proof: tools/extract lists every assignment through a *Config parameter/receiver or to defaultConfig outside the option constructors; GoSnaps.Props.C12 requires that list to be empty (decide) and proves that no step of the model changes the Config store. All ordered pairs and triples of the five entry points x 4 option sets (plus random sequences) are executed through one shared Config and through a fresh Config per call and compared (events, written paths, final directory); the concurrent stress runs under the race detector.',
